@@ -522,6 +522,9 @@ func (p *Program) Files(withDriver bool) map[string]string {
 					c.renderInjector(in)
 				}
 			}
+			if f == 1 && p.InjRawB != "" {
+				c.pf("%s\n", p.InjRawB)
+			}
 			if f == 0 {
 				for _, s := range p.Sets {
 					if s.Pkg == 0 && s.InInjectFile && !s.Inline {
